@@ -264,7 +264,7 @@ pub fn run(ctx: &mut Ctx) -> Result<(), Violation> {
     });
     ctx.stage("filter-sequences-on-one-environment-3var", true, r)?;
 
-    let cases = ctx.tier.pick(100_000, 1_500_000);
+    let cases = ctx.tier.pick(100_000, 8_000_000);
     let r = par_random(ctx, "random-api", cases, 80, |tape, st| {
         let mut t = Tape::new(tape);
         let f = gen_fun(&mut t, 8, 12);
@@ -278,7 +278,7 @@ pub fn run(ctx: &mut Ctx) -> Result<(), Violation> {
     let spellings = ["true", "True", "t", "T", "1", "false", "False", "f", "F", "0", "any", "Any", "a", "A", "*"];
     let mut jobs: Vec<(Fun, String)> = Vec::new();
     let mut rng = crate::util::Rng::new(ctx.seed ^ 0xC20);
-    let n = ctx.tier.pick(150, 3000);
+    let n = ctx.tier.pick(150, 10_000);
     for i in 0..n {
         let f = if i % 3 == 0 {
             Fun::new(TT::from_bits(2, rng.next() & 0xf), vec![0, 1])
